@@ -242,7 +242,9 @@ def run(ctx):
     for b in (1.0, 2.0, 0.5, 1000.0, 0.001, 1e-3, 4.0, 0.25):
         for e in (0.5, 1.5, -0.5, 1.00000001, 0.9999999, 0.3333333, 0.3333334, 2.5):
             rtab.append((b, e, b ** e))
-    rtab = list(dict.fromkeys(rtab))[:500]
+    for e in (2.000004, 12.0001, 1.00001, -3.00002, 0.99999, 2.00001, 5.00004, 0.000004, 0.33333, 0.499999):
+        rtab.append((1.0, e, 1.0))          # the exponents of the near-integer fixed cases (base units have SI magnitude 1)
+    rtab = list(dict.fromkeys(rtab))[:520]
     # direct oracle
     kinds = {}
     for t, r in zip(texts, res):
